@@ -351,3 +351,72 @@ def depth_cases_for(L):
             out.append(nest(k, L, (0x1C,)))
         return [hx(b) for b in out]
     return gen
+
+
+# ---------------------------------------------------------------- model-fidelity audit (AUDIT.md)
+# one minimal head per builder callback of builder_callbacks.c (the 24 members of struct cbor_callbacks cbor_load installs)
+AUDIT_HEADS = [
+    [0x05], [0x18, 0x99], [0x19, 0x01, 0x02], [0x1A, 1, 2, 3, 4], [0x1B, 1, 2, 3, 4, 5, 6, 7, 8],           # uint8 (embedded + 1 byte), 16, 32, 64
+    [0x25], [0x38, 0x99], [0x39, 0x01, 0x02], [0x3A, 1, 2, 3, 4], [0x3B, 1, 2, 3, 4, 5, 6, 7, 8],           # negint
+    [0x40], [0x42, 0x00, 0xFF], [0x60], [0x62, 0xC3, 0xA9],                                                   # definite strings
+    [0x5F, 0xFF], [0x5F, 0x41, 0x00, 0x40, 0xFF], [0x7F, 0xFF], [0x7F, 0x61, 0x61, 0x60, 0xFF],               # chunked
+    [0x80], [0x81, 0x01], [0x9F, 0xFF], [0x9F, 0x01, 0xFF], [0xA0], [0xA1, 0x01, 0x02], [0xBF, 0xFF], [0xBF, 0x01, 0x02, 0xFF],
+    [0xC0, 0x01], [0xDB, 0xFF, 0xFF, 0xFF, 0xFF, 0xFF, 0xFF, 0xFF, 0xFF, 0x01],                               # tag (embedded, 8 byte)
+    [0xF4], [0xF5], [0xF6], [0xF7], [0xF9, 0x7C, 0x01], [0xFA, 0x7F, 0x80, 0x00, 0x01], [0xFB, 0x7F, 0xF0, 0, 0, 0, 0, 0, 1],
+]
+
+def audit_positions(x):
+    """x in every position a callback can meet: root; element of a definite / indefinite array (first, last, only);
+    definite / indefinite map key and value; tag content; three-level cascades that close several containers at once;
+    the positions where the item is ILLEGAL (chunk of either string kind, after an odd number of map members before
+    a break) and where the container is left incomplete (truncation right after x)"""
+    one = [0x01]
+    return [
+        x, [0x81] + x, [0x83] + one + x + one, [0x82] + one + x, [0x9F] + x + [0xFF], [0x9F] + one + x + one + [0xFF],
+        [0xA1] + x + one, [0xA1] + one + x, [0xA2] + one + one + x + one, [0xA2] + one + one + one + x,
+        [0xBF] + x + one + [0xFF], [0xBF] + one + x + [0xFF], [0xBF] + one + one + x + one + [0xFF],
+        [0xC1] + x, [0xC1, 0xC2] + x,
+        [0x81, 0x81, 0x81] + x, [0x82, 0x81, 0xA1] + one + x + one, [0x81, 0xA1, 0xC1] + x + [0x81] + x, [0x9F, 0xBF, 0x81] + x + [0xC1] + x + [0xFF, 0xFF],
+        [0xA1, 0x81] + x + [0xC1, 0x81] + x,
+        [0x5F] + x + [0xFF], [0x7F] + x + [0xFF], [0x5F, 0x41, 0x00] + x + [0xFF], [0x7F, 0x61, 0x61] + x, [0x81, 0x5F] + x + [0xFF],
+        [0xBF] + x + [0xFF], [0xBF] + one + one + x + [0xFF],
+        [0x82] + x, [0xA1] + x, [0x9F] + x, [0xBF] + x, [0xBF] + one + x, [0xC1, 0x82] + x,
+        x + x, [0x81] + x + [0xFF],
+    ]
+
+def audit_cases(ctx):
+    """cbor_load (model P): every builder callback in every position; the result is compared field by field (error code,
+    position, read; on success read, the tree, and a result position other than 0 is printed by the harness)"""
+    out = []
+    for h in AUDIT_HEADS:
+        out += audit_positions(h)
+    seen, res = set(), []
+    for b in out:
+        t = hx(b)
+        if t not in seen:
+            seen.add(t); res.append(t)
+    return res
+
+def audit_cap_cases(ctx, cap=4096):
+    """declared sizes and growth steps on both sides of a SECOND allocator cap (the streams otherwise run at 2^20 only).
+    Model P applies the cap to the requests whose size the input declares; every other request of these inputs
+    (items of at most 56 bytes, stack records, growth of indefinite containers up to exactly `cap` bytes) stays within the cap,
+    which is the hypothesis under which P is faithful (AUDIT.md, D2)."""
+    out = []
+    for mt in (2, 3):
+        for n in (cap - 1, cap, cap + 1):
+            out.append(head(mt, n, 2) + [0x61] * n)
+            out.append([0x81] + head(mt, n, 2) + [0x61] * n)
+            out.append([(mt << 5) | 31] + head(mt, n, 2) + [0x61] * n + [0xFF])
+    for n in (cap // 8 - 1, cap // 8, cap // 8 + 1):
+        out.append(head(4, n, 2) + [0x00] * n)
+        out.append([0xC1] + head(4, n, 2) + [0x00] * n)
+    for n in (cap // 16 - 1, cap // 16, cap // 16 + 1):
+        out.append(head(5, n, 2) + [0x00, 0x01] * n)
+    # growth of indefinite containers: the last step that fits the cap exactly (8 * 512, 16 * 256 bytes at cap 4096)
+    out.append([0x9F] + [0x00] * (cap // 8) + [0xFF])
+    out.append([0x9F] + [0x00] * (cap // 16 + 1) + [0xFF])
+    out.append([0xBF] + [0x00, 0x01] * (cap // 16) + [0xFF])
+    out.append([0x5F] + [0x41, 0x00] * (cap // 8) + [0xFF])
+    out.append([0x7F] + [0x60] * (cap // 8) + [0xFF])
+    return [hx(b) for b in out]
